@@ -52,6 +52,18 @@ register('C14',
          'DESIGN.md 5/C14')
 
 
+register('C15',
+         'BitPrims.tla gives the one-line definitions (window census with/without wrap, sub-sequences, block split, scatter, '
+         'runs, longest run, overlapping runs, reversal, +-1 expansion, popcount, GF(2) rank on sets of columns); TLC checks them '
+         'against independent second formulations on every string of length <= 10. The real functions are replayed on every '
+         'string of length <= 8 (quick; <= 12 thorough) with every m, sampled strings to 16 bits, a TLC-sized grid on both sides '
+         'of the 50*2^m fast-path threshold at every residue mod 8, block sizes to 70, long strings, and rank on shapes around '
+         '32/50/256 rows; TLC re-evaluates the definition on every recorded input (BitPrimsTrace.tla).',
+         'Trusted: TLC, the harness\'s int<->bit-list conversion. Inputs outside the documented domains (m <= 0 for counts, seq longer than length) are not driven.',
+         'TLA+ definitions (BitPrims.tla) model-checked for mutual consistency with TLC + exhaustive/threshold replay + TLC trace validation',
+         'DESIGN.md 5/C15')
+
+
 def main():
   props = [json.loads(l)['id'] for l in open(os.path.join(HOME, 'properties.jsonl'))]
   checks = []
